@@ -19,10 +19,16 @@ Row(sec, mt, pf, code, tr, body) ==
    sec |-> sec, mt |-> mt, pf |-> pf, code |-> code, tr |-> tr,
    required |-> Required(sec, mt, pf, code, tr), asbuilt |-> AsBuilt(sec, mt, pf, code, tr)]
 
+\* the same "finished" alert under every type an empty blob may carry: all required to succeed
+BlobTypes == {0, 1, 4, 9, 5160, 65535}
+RowT(sec, pf, bt) == [Row(sec, ERROR_ALERT, pf, STATUS_VALID_CLIENT, ST_NO_TRANSITION, ErrorAlertBodyT(STATUS_VALID_CLIENT, ST_NO_TRANSITION, bt))
+                        EXCEPT !.id = "LB-" \o ToString(sec) \o "-" \o ToString(pf) \o "-" \o ToString(bt)]
+EmptyBlobAlerts == { RowT(sec, pf, bt) : sec \in {128, 640}, pf \in {2, 3, 130, 131}, bt \in BlobTypes }
+
 Alerts == { Row(sec, ERROR_ALERT, pf, code, tr, ErrorAlertBody(code, tr)) : sec \in SecFlags, pf \in PFlags, code \in Codes, tr \in Trans }
 Others == { Row(sec, mt, pf, 0, 0, OtherBody(IF (mt % 3) = 0 THEN 0 ELSE 12 + (mt % 5))) : sec \in SecFlags, mt \in MsgTypes \ {ERROR_ALERT}, pf \in PFlags }
 
 VARIABLE done
-Init == done = ndJsonSerialize(IOEnv.LICPLANS, SetToSeq(Alerts \cup Others))
+Init == done = ndJsonSerialize(IOEnv.LICPLANS, SetToSeq(Alerts \cup Others \cup EmptyBlobAlerts))
 Next == UNCHANGED done
 =============================================================================
